@@ -28,10 +28,10 @@ CHECKS = {
           "Same histories as C03 (plus crash-injecting mixes, in which the rules apply to every task that was not itself left aborted); every execution of a previously completed task in a bottom-up build must follow an inconsistent/erroneous verdict on one of its own recorded dependencies; at most one execution per task; no task executes while a scheduled task it transitively requires still waits.", E1_NOTE, "5/C04"),
   "C10": ("e2", "deterministic simulation: seeded operation histories over the real DAG vs reference graph, invariants after every op",
           "Seeded search over DAG operation histories (incl. operations on removed nodes, re-insertions, cycle-closing edges) with rank-bijection / ascending-edge / exact-cycle-verdict / rollback invariants evaluated after every operation against a DFS reference. Evidence over the sampled histories, not proof.",
-          "Trusts the naive reference graph; bounded to <= 12 live nodes and <= 120 operations per history; hash iteration order controlled through the guarded seeded-hasher seam.", "5/C10"),
+          "Trusts the naive reference graph; bounded to <= 12 live nodes and <= 120 operations per history (configuration wide: <= 30 nodes, <= 240 operations); hash iteration order controlled through the guarded seeded-hasher seam.", "5/C10"),
   "C11": ("e2", "deterministic simulation: seeded operation histories over the real DAG, every public query vs reference graph after every op",
           "Same histories as C10; after every operation every public query (direct/transitive edges, ordered incoming/outgoing adjacency with data, both descendant iterators, topo_cmp, removal results) is compared for all ordered pairs of live and dead handles with the reference graph. Evidence over the sampled histories.",
-          "Trusts the naive reference graph; bounded to <= 12 live nodes and <= 120 operations per history.", "5/C11"),
+          "Trusts the naive reference graph; bounded to <= 12 live nodes and <= 120 operations per history (configuration wide: <= 30 nodes, <= 240 operations).", "5/C11"),
   "C16": ("e1", "deterministic simulation with a seeded-hasher seam: each history replayed under other hash seeds, after unrelated instances, in a fresh thread and with OS-random seeds; complete event logs compared",
           "Every scenario of the top-down and bottom-up mixes is replayed under perturbations that must not matter (hash seed, unrelated instances before, fresh thread, OS-random seeds); the complete unified event log (task-side, checker-side, resource-side and tracker events with stamps) must be identical.", E1_NOTE, "5/C16"),
   "C17": ("e1", "deterministic simulation: full-fidelity recording tracker cross-checked against task-side and checker-side logs; composite children compared; EventTracker and helpers vs reference scan",
